@@ -482,7 +482,9 @@ class Items:
             p.expect('}')
             self.structs[name] = fs; return
         if v == 'enum':
-            p.next(); name = p.ident(); p.expect('{'); vs = []
+            p.next(); name = p.ident()
+            if p.at('<'): p.skip_balanced('<', '>')
+            p.expect('{'); vs = []
             while not p.at('}'):
                 vn = p.ident()
                 payload = None
@@ -636,6 +638,7 @@ class Tr:
         if isinstance(ty, tuple) and ty[0] == 'result' and self.err_is_value(ty):
             return f'(Rs.ResV {self.lean_ty(ty[2], self_ty)} {self.lean_ty(ty[1], self_ty)})'
         if isinstance(ty, tuple):
+            if ty[0] == 'struct' and ty[1] == 'RsReports': return '(List Rs.Report)'
             if ty[0] == 'struct':
                 n = self_ty if ty[1] == 'Self' else ty[1]
                 return lean_struct(n)
@@ -925,6 +928,11 @@ class Tr:
             s, t = self.ex(args[0], env)
             if t not in ('string', 'strings'): raise TranslateError(f'Err of {t}')
             return f'(Rs.Res.err {s})', ('result', 'lit', 'string')
+        if len(p) == 1 and last in ('rs_report', 'rs_report_each') and len(args) == 4:
+            # the error channel as a value: `report_error(pos, msg, word)` appends one report (`_each`: one per message of a Vec<String>)
+            o, to = self.ex(args[0], env); ps, _ = self.ex(args[1], env); m, tm = self.ex(args[2], env); w, tw = self.ex(args[3], env)
+            if to != ('struct', 'RsReports') or tm not in ('string', 'strings') or tw != 'bytes': raise TranslateError(f'{last}: argument types {to} {tm} {tw}')
+            return f'({o} ++ [Rs.Report.mk {ps} {m} {w} {"true" if last.endswith("each") else "false"}])', ('struct', 'RsReports')
         if p[-2:] == ['String', 'new'] or p[-2:] == ['Vec', 'new']:
             return 'Rs.Str.empty', 'string'
         if p[-2:] == ['String', 'from']:
@@ -965,6 +973,8 @@ class Tr:
             parts.append(s)
         ret = f['ret']
         if isinstance(ret, tuple) and ret == ('struct', 'Self'): ret = ('struct', f['owner'])
+        if isinstance(ret, tuple) and ret[0] in ('result', 'option') and ret[1] == ('struct', 'Self'):
+            ret = (ret[0], ('struct', f['owner'])) + tuple(ret[2:])
         if f['selfkind'] == 'mut':
             ret = ('tuple', [ret, ('struct', f['owner'])])
         if f.get('mutparams'):
@@ -1099,6 +1109,10 @@ class Tr:
         if isinstance(t, tuple) and t[0] == 'result':
             if name == 'is_err': return f'({s}).isErr', 'bool'
             if name == 'is_ok': return f'(!({s}).isErr)', 'bool'
+            if name in ('unwrap', 'expect') and not self.err_is_value(t):
+                # `Result::unwrap`: the `Err` case is a panic site; the tie has to show it unreachable (or model it)
+                rt = ('struct', env['owner']) if t[1] == ('struct', 'Self') else t[1]
+                return f'(Rs.Res.unwrapD {s})', rt
         raise TranslateError(f'method .{name}() on {t} not supported')
 
     def fork(self, env):
@@ -1754,7 +1768,18 @@ def generate(spec, repo):
     for f in spec['files']:
         path = os.path.join(repo, f)
         if not os.path.exists(path): raise TranslateError('source file missing: ' + f)
-        items.scan(tokenize(open(path).read()))
+        text = open(path).read()
+        # `require`: shapes the rewrites below rely on (regex over the comment-free, white-space-free text); a miss is a broken tie
+        flat = re.sub(r'\s+', '', re.sub(r'//[^\n]*', '', text))
+        for rx in spec.get('require', {}).get(f, []):
+            if not re.search(rx, flat): raise TranslateError(f'{f}: required shape not found: {rx[:80]}')
+        # `rewrites`: documented, semantics-preserving source-to-source steps done before parsing (each must apply at least once)
+        for rx, repl in spec.get('rewrites', {}).get(f, []):
+            text, n = re.subn(rx, repl, text)
+            if n == 0: raise TranslateError(f'{f}: rewrite does not apply any more: {rx[:80]}')
+        items.scan(tokenize(text))
+        if f in spec.get('inject', {}):
+            items.scan(tokenize(spec['inject'][f]))
     tr = Tr(items, spec['namespace'])
     tr.used_consts = []
     for q in spec.get('consts', []):
